@@ -81,16 +81,23 @@ func main() {
 		// the launcher builds a per-invocation binary and execs it; remove it right away
 		os.Remove(os.Args[0])
 	}
+	exit := func(code int) {
+		if mf := os.Getenv("VERIF_MODFILE"); mf != "" && os.Getenv("VERIF_SELF_DELETE") != "" {
+			os.Remove(mf)
+			os.Remove(strings.TrimSuffix(mf, ".mod") + ".sum")
+		}
+		os.Exit(code)
+	}
 	if len(os.Args) < 2 {
 		usage()
 	}
 	switch os.Args[1] {
 	case "run":
-		os.Exit(cmdRun(os.Args[2:]))
+		exit(cmdRun(os.Args[2:]))
 	case "replay":
-		os.Exit(cmdReplay(os.Args[2:]))
+		exit(cmdReplay(os.Args[2:]))
 	case "selftest":
-		os.Exit(cmdSelftest(os.Args[2:]))
+		exit(cmdSelftest(os.Args[2:]))
 	default:
 		usage()
 	}
@@ -239,6 +246,7 @@ func cmdRun(args []string) int {
 	workers := fs.Int("workers", 0, "worker count")
 	trace := fs.Bool("trace", false, "trace")
 	noReplay := fs.Bool("no-replay", false, "skip native replays")
+	stopFirst := fs.Bool("stop-at-first", false, "stop after the first confirmed violation")
 	if len(args) < 1 {
 		usage()
 	}
@@ -440,8 +448,20 @@ func cmdRun(args []string) int {
 			fmt.Printf("  VACUOUS %s: no assertion was reached on any path\n", h.Name)
 		}
 		// failures
+		confirmedHere := 0
 		for i, f := range res.Failures {
 			ro := replayOutcome{Failure: f}
+			if confirmedHere > 0 && i >= 2 && matchFinding(findings, ps.ID, h.Name, f) == nil {
+				// one confirmed counterexample per harness is replayed; further failing
+				// assertion sites of the same harness are listed without a native run
+				file := filepath.Join(verifRoot, "replays", fmt.Sprintf("%s-%s-%d.json", ps.ID, sanitizeName(h.Name), i))
+				writeReplayFile(file, ps.ID, h, ts, f)
+				ro.File, ro.Native, ro.Confirmed = file, "not replayed (an earlier counterexample of this harness was confirmed natively)", true
+				hr.Replays = append(hr.Replays, ro)
+				fmt.Printf("VIOLATION property=%s replay=%s\n", ps.ID, file)
+				fmt.Printf("  harness=%s kind=%s site=%s msg=%q native=%q\n", h.Name, f.Kind, f.Site, f.Msg, ro.Native)
+				continue
+			}
 			if kf := matchFinding(findings, ps.ID, h.Name, f); kf != nil && kf.Status == "known" {
 				ro.Known = kf
 				fmt.Printf("KNOWN-FINDING: property=%s %s [%s: %s]\n", ps.ID, kf.What, h.Name, f.Msg)
@@ -461,6 +481,7 @@ func cmdRun(args []string) int {
 			}
 			hr.Replays = append(hr.Replays, ro)
 			if ro.Confirmed {
+				confirmedHere++
 				fmt.Printf("VIOLATION property=%s replay=%s\n", ps.ID, file)
 				fmt.Printf("  harness=%s kind=%s site=%s msg=%q native=%q inputs=%s\n", h.Name, f.Kind, f.Site, f.Msg, ro.Native, inputsString(f.Inputs))
 				exit = max(exit, 1)
@@ -480,6 +501,9 @@ func cmdRun(args []string) int {
 				exit = max(exit, 1)
 				hr.Replays = append(hr.Replays, replayOutcome{Failure: f, File: file, Native: native, Confirmed: true})
 			}
+		}
+		if *stopFirst && exit == 1 {
+			break
 		}
 		// differential: completed sample paths must pass natively as well
 		if !*noReplay && !h.EngineOnly && len(res.Samples) > 0 && os.Getenv("VERIF_NO_DIFF") == "" {
